@@ -112,13 +112,13 @@ func leafFor(names ...string) tls.Certificate {
 
 // ---- ClientHello helpers ----
 
-type rawExt struct {
+type rawExt_c15 struct {
 	typ  int
 	data []byte
 }
 
 // helloExts returns the raw extensions of a ClientHello handshake message (with 4-byte header).
-func helloExts(ch []byte) ([]rawExt, bool) {
+func helloExts(ch []byte) ([]rawExt_c15, bool) {
 	p := 4 + 2 + 32
 	if len(ch) < p+1 {
 		return nil, false
@@ -144,7 +144,7 @@ func helloExts(ch []byte) ([]rawExt, bool) {
 		return nil, false
 	}
 	e := ch[p : p+n]
-	var out []rawExt
+	var out []rawExt_c15
 	for len(e) > 0 {
 		if len(e) < 4 {
 			return out, false
@@ -154,7 +154,7 @@ func helloExts(ch []byte) ([]rawExt, bool) {
 		if len(e) < 4+l {
 			return out, false
 		}
-		out = append(out, rawExt{t, e[4 : 4+l]})
+		out = append(out, rawExt_c15{t, e[4 : 4+l]})
 		e = e[4+l:]
 	}
 	return out, true
@@ -380,7 +380,7 @@ func u16sBytes(xs []int) []byte {
 }
 
 // mkHello marshals a ClientHello handshake message from parts.
-func mkHello(vr, sid, suites, comp []byte, exts []rawExt) []byte {
+func mkHello(vr, sid, suites, comp []byte, exts []rawExt_c15) []byte {
 	body := append([]byte(nil), vr...)
 	body = append(body, vec8b(sid)...)
 	body = append(body, vec16(suites)...)
@@ -452,14 +452,14 @@ func wfBody(r *Rng, t int, name string) []byte {
 
 var compressibleTypes = []int{5, 10, 13, 50, 16, 43, 44, 51, 45}
 
-func shuffleExts(r *Rng, xs []rawExt) {
+func shuffleExts(r *Rng, xs []rawExt_c15) {
 	for i := len(xs) - 1; i > 0; i-- {
 		j := r.Intn(i + 1)
 		xs[i], xs[j] = xs[j], xs[i]
 	}
 }
 
-func extTypes(xs []rawExt) []int {
+func extTypes(xs []rawExt_c15) []int {
 	out := make([]int, len(xs))
 	for i, x := range xs {
 		out[i] = x.typ
@@ -476,39 +476,39 @@ func intsStr(xs []int) string {
 }
 
 // genOuter builds an outer hello containing (most of) the given compressible types.
-func genOuter(r *Rng, have map[int][]byte, pub string, canonical bool) []rawExt {
-	var outer []rawExt
-	outer = append(outer, rawExt{0, wfBody(r, 0, pub)})
+func genOuter(r *Rng, have map[int][]byte, pub string, canonical bool) []rawExt_c15 {
+	var outer []rawExt_c15
+	outer = append(outer, rawExt_c15{0, wfBody(r, 0, pub)})
 	ech := append([]byte{0, 0, 1, 0, 1, byte(r.Intn(256))}, vec16(r.Bytes(32))...)
 	ech = append(ech, vec16(r.Bytes(32+r.Intn(64)))...)
-	outer = append(outer, rawExt{65037, ech})
+	outer = append(outer, rawExt_c15{65037, ech})
 	for _, t := range compressibleTypes {
 		body, ok := have[t]
 		switch {
 		case ok && r.Intn(40) == 0:
 			// the outer hello lacks a type the inner one compresses
 		case ok:
-			outer = append(outer, rawExt{t, body})
+			outer = append(outer, rawExt_c15{t, body})
 		case r.Intn(3) == 0:
-			outer = append(outer, rawExt{t, wfBody(r, t, "")})
+			outer = append(outer, rawExt_c15{t, wfBody(r, t, "")})
 		}
 	}
 	if r.Bool() {
-		outer = append(outer, rawExt{0x0a0a, nil})
+		outer = append(outer, rawExt_c15{0x0a0a, nil})
 	}
 	if r.Bool() {
-		outer = append(outer, rawExt{27, []byte{2, 0, 2}})
+		outer = append(outer, rawExt_c15{27, []byte{2, 0, 2}})
 	}
 	if r.Bool() {
-		outer = append(outer, rawExt{23, nil})
+		outer = append(outer, rawExt_c15{23, nil})
 	}
 	if r.Bool() {
-		outer = append(outer, rawExt{21, make([]byte, r.Intn(30))})
+		outer = append(outer, rawExt_c15{21, make([]byte, r.Intn(30))})
 	}
 	shuffleExts(r, outer)
 	if canonical {
 		// crypto/tls order: the compressible extensions in marshal order, the others around them
-		var cs []rawExt
+		var cs []rawExt_c15
 		for _, t := range compressibleTypes {
 			for _, e := range outer {
 				if e.typ == t {
@@ -535,11 +535,11 @@ func genEchCodec(r *Rng, i int, tier string) string {
 	mnl := Pick(r, []int{0, 1, 8, 16, 32, 64, 128, 255, r.Intn(256)})
 	if r.Intn(10) < 6 {
 		// kind=enc: real encoder on a generated inner hello, real decoder on its output
-		var inner []rawExt
+		var inner []rawExt_c15
 		have := map[int][]byte{}
 		add := func(t int) {
 			b := wfBody(r, t, name)
-			inner = append(inner, rawExt{t, b})
+			inner = append(inner, rawExt_c15{t, b})
 			have[t] = b
 		}
 		if r.Intn(10) < 9 {
@@ -548,7 +548,7 @@ func genEchCodec(r *Rng, i int, tier string) string {
 		switch r.Intn(20) {
 		case 0:
 		case 1:
-			inner = append(inner, rawExt{65037, []byte{0, 0, 1}})
+			inner = append(inner, rawExt_c15{65037, []byte{0, 0, 1}})
 		default:
 			add(65037)
 		}
@@ -577,7 +577,7 @@ func genEchCodec(r *Rng, i int, tier string) string {
 		}
 		shuffleExts(r, inner)
 		if r.Intn(10) == 0 {
-			inner = append(inner, rawExt{41, wfBody(r, 41, "")})
+			inner = append(inner, rawExt_c15{41, wfBody(r, 41, "")})
 		}
 		comprOnly := map[int][]byte{}
 		for _, t := range compressibleTypes {
@@ -654,19 +654,19 @@ func genEchCodec(r *Rng, i int, tier string) string {
 			mut += "+short"
 		}
 	}
-	var exts []rawExt
+	var exts []rawExt_c15
 	if r.Intn(10) < 9 {
-		exts = append(exts, rawExt{0, wfBody(r, 0, name)})
+		exts = append(exts, rawExt_c15{0, wfBody(r, 0, name)})
 	}
 	switch r.Intn(12) {
 	case 0:
 	case 1:
-		exts = append(exts, rawExt{65037, []byte{0}})
+		exts = append(exts, rawExt_c15{65037, []byte{0}})
 	default:
-		exts = append(exts, rawExt{65037, []byte{1}})
+		exts = append(exts, rawExt_c15{65037, []byte{1}})
 	}
 	if _, listed := have[43]; !(listed && containsInt(list, 43)) && r.Intn(10) < 9 {
-		exts = append(exts, rawExt{43, wfBody(r, 43, "")})
+		exts = append(exts, rawExt_c15{43, wfBody(r, 43, "")})
 	}
 	shuffleExts(r, exts)
 	nOuterExt := 1
@@ -678,12 +678,12 @@ func genEchCodec(r *Rng, i int, tier string) string {
 	}
 	for k := 0; k < nOuterExt; k++ {
 		pos := r.Intn(len(exts) + 1)
-		exts = append(exts[:pos], append([]rawExt{{64768, lb}}, exts[pos:]...)...)
+		exts = append(exts[:pos], append([]rawExt_c15{{64768, lb}}, exts[pos:]...)...)
 	}
 	if r.Intn(12) == 0 {
-		exts = append(exts, rawExt{41, wfBody(r, 41, "")})
+		exts = append(exts, rawExt_c15{41, wfBody(r, 41, "")})
 		if r.Intn(3) == 0 {
-			exts = append(exts, rawExt{18, nil})
+			exts = append(exts, rawExt_c15{18, nil})
 			mut += "+pskmid"
 		}
 	}
